@@ -57,10 +57,26 @@ def _index_map(ctx, short: str):
     fv = ctx.fv(f)
     selfn = f.params[0]
     apps = [cs for cs in fv.calls() if isinstance(cs.call.func, ast.Attribute) and cs.call.func.attr == "append"]
-    if len(apps) != 1:
-        raise AnalysisInconclusive("C15.formula", f.where(), f"expected one append of the mapped well, found {len(apps)} (vectorised rewrite?)")
-    cs = apps[0]
-    arg = fv.res.resolve(cs.call.args[0], cs.node)
+    if len(apps) == 1:
+        cs = apps[0]
+        arg = fv.res.resolve(cs.call.args[0], cs.node)
+    else:
+        # comprehension form:  return numpy.array([<mapped well> for well in wells.flatten()]).reshape(...)
+        arg = None
+        cs = None
+        for rn in fv.return_nodes():
+            t = fv.res.resolve(rn.ast.value, rn.id)
+            for sub_ in ast.walk(t):
+                if is_sym(sub_, "comp") and isinstance(sub_.args[0], ast.Constant) and sub_.args[0].value == "ListComp" and len(sub_.args) == 3:
+                    arg = sub_.args[1]
+
+                    class _Site:  # where-anchor for the reports
+                        call = rn.ast
+                        node = rn.id
+
+                    cs = _Site()
+        if arg is None:
+            raise AnalysisInconclusive("C15.formula", f.where(), f"expected one append of the mapped well, found {len(apps)} (vectorised rewrite?)")
     if not (isinstance(arg, ast.Subscript) and isinstance(arg.value, ast.Attribute) and is_name(arg.value.value, selfn) and isinstance(arg.slice, ast.Tuple) and len(arg.slice.elts) == 2):
         raise AnalysisInconclusive("C15.formula", f.where(cs.call), f"mapped well `{show(arg)[:60]}` is not self.<wells table>[row, col]")
     table = arg.value.attr
@@ -476,6 +492,19 @@ def _lane_class(val: ast.AST):
         return "columns"
     if isinstance(v, ast.Call) and call_fname(v) == "transpose" and ((isinstance(v.func, ast.Attribute) and is_grid(v.func.value) and not v.args) or (v.args and is_grid(v.args[0]) and len(v.args) == 1)):
         return "columns"
+    if is_sym(v, "comp") and isinstance(v.args[0], ast.Constant) and v.args[0].value == "ListComp" and len(v.args) == 3 and is_sym(v.args[2], "gen") and len(v.args[2].args) == 1:
+        # [grid[r, :] for r in range(shape[0])]  /  [grid[:, c] for c in range(shape[1])]
+        elt, it = v.args[1], v.args[2].args[0]
+        if isinstance(elt, ast.Subscript) and is_grid(elt.value) and isinstance(elt.slice, ast.Tuple) and len(elt.slice.elts) == 2 \
+                and isinstance(it, ast.Call) and call_fname(it) == "range" and len(it.args) == 1 and isinstance(it.args[0], ast.Subscript) and isinstance(it.args[0].slice, ast.Constant):
+            a0, a1 = elt.slice.elts
+            axis = it.args[0].slice.value
+            full = lambda s_: isinstance(s_, ast.Slice) and s_.lower is None and s_.upper is None and s_.step is None  # noqa: E731
+            if is_sym(a0, "elem") and full(a1) and axis == 0:
+                return "rows"
+            if is_sym(a1, "elem") and full(a0) and axis == 1:
+                return "columns"
+        return None
     if isinstance(v, (ast.List, ast.Tuple)) and len(v.elts) == 1:
         e = v.elts[0]
         if isinstance(e, ast.Call) and call_fname(e) in ("flatten", "ravel", "reshape") and isinstance(e.func, ast.Attribute) and (is_grid(e.func.value) or (isinstance(e.func.value, ast.Attribute) and is_grid(e.func.value.value))):
